@@ -23,7 +23,7 @@ pub struct World {
     leaf_ptr: Vec<Option<*const Leaf>>,
     unit_ptr: Vec<Option<*const Unit>>,
     /// shared targets (None if construction was rejected)
-    targets: Vec<Option<*mut Node>>,
+    targets: Vec<std::sync::atomic::AtomicPtr<Node>>,
 }
 
 unsafe impl Send for World {}
@@ -84,12 +84,16 @@ impl World {
         for i in 0..spec.targets.len() {
             let t = spec.targets[i].clone();
             let r = w.build(&t, sched);
+            use std::sync::atomic::AtomicPtr;
             match r {
-                Ok(n) => w.targets.push(Some(Box::into_raw(Box::new(n)))),
-                Err(BuildErr::Rejected) => w.targets.push(None),
+                Ok(n) => {
+                    let p = Box::into_raw(Box::new(n));
+                    w.targets.push(AtomicPtr::new(p));
+                }
+                Err(BuildErr::Rejected) => w.targets.push(AtomicPtr::new(std::ptr::null_mut())),
                 Err(BuildErr::Bad(m)) => {
                     sched.lock().event(Clause::Harness, 0, format!("building target {}: {}", i, m));
-                    w.targets.push(None);
+                    w.targets.push(AtomicPtr::new(std::ptr::null_mut()));
                 }
             }
         }
@@ -103,7 +107,22 @@ impl World {
         self.unit_ptr[u].map(|p| unsafe { &*p })
     }
     pub fn target(&self, i: usize) -> Option<&'static Node> {
-        self.targets[i].map(|p| unsafe { &*p })
+        let p = self.targets[i].load(std::sync::atomic::Ordering::SeqCst);
+        if p.is_null() {
+            None
+        } else {
+            Some(unsafe { &*p })
+        }
+    }
+
+    /// take a shared target out of the world (destruction paths, C16)
+    pub fn take_target(&self, i: usize) -> Option<Box<Node>> {
+        let p = self.targets[i].swap(std::ptr::null_mut(), std::sync::atomic::Ordering::SeqCst);
+        if p.is_null() {
+            None
+        } else {
+            Some(unsafe { Box::from_raw(p) })
+        }
     }
 
     /// Build a node from a spec. Every checked constructor's verdict is compared with the
@@ -112,7 +131,18 @@ impl World {
         match t {
             TSpec::Leaf(l) => self.leaf(*l).map(Node::Leaf).ok_or_else(|| BuildErr::Bad(format!("leaf {} is owned by a unit", l))),
             TSpec::Unit(u) => self.unit(*u).map(Node::Unit).ok_or_else(|| BuildErr::Bad(format!("no unit {}", u))),
-            TSpec::Shared(i) => self.targets.get(*i).copied().flatten().map(|p| Node::Shared(unsafe { &*p })).ok_or(BuildErr::Rejected),
+            TSpec::Shared(i) => self.target(*i).map(Node::Shared).ok_or(BuildErr::Rejected),
+            TSpec::Tagged(tag, inner) => {
+                let n = self.build(inner, sched)?;
+                {
+                    let mut g = sched.lock();
+                    if *tag < g.tag_made.len() {
+                        g.tag_made[*tag] += 1;
+                    }
+                }
+                Ok(Node::Tagged(Box::new(n), Tag(*tag)))
+            }
+            TSpec::Own { kind, cont, leaves, ctor, poison } => self.build_own(*kind, *cont, leaves, *ctor, *poison, sched),
             TSpec::Coll { kind, cont, members, poison } => {
                 let mut ms = Vec::new();
                 for m in members {
@@ -150,6 +180,100 @@ impl World {
         }
     }
 
+    fn build_own(&self, kind: OwnKind, cont: ContKind, lids: &[Lid], ctor: Ctor, poison: bool, sched: &Sched) -> Result<Node, BuildErr> {
+        let mk = |l: &Lid| Leaf::new(self.spec.leaves[*l], Pay::new(*l, INIT_VAL));
+        let (first, rest): (&[Lid], &[Lid]) = match ctor {
+            Ctor::NewThenExtend(k) => lids.split_at(lids.len() - k.min(lids.len())),
+            _ => (lids, &[]),
+        };
+        let data: CL = match ctor {
+            Ctor::FromIter | Ctor::NewThenExtend(_) => Cont::V(first.iter().map(mk).collect()),
+            _ => Cont::build(cont, first.iter().map(mk).collect()),
+        };
+        let bad = |m: &str| BuildErr::Bad(format!("own target: {}", m));
+        // the leaves live on the heap: register their address ranges once the collection is in its final place
+        let reg = |members: Vec<&Leaf>, unit: bool| {
+            let mut g = sched.lock();
+            for (leaf, lid) in members.into_iter().zip(lids) {
+                let a = leaf as *const Leaf as usize;
+                g.ranges.push((a, a + std::mem::size_of::<Leaf>(), *lid));
+                if unit {
+                    g.unit_of[*lid] = Some(1000 + lids[0]);
+                }
+            }
+        };
+        fn un<T>(r: happylock::poisonable::PoisonResult<T>) -> T {
+            match r {
+                Ok(x) => x,
+                Err(e) => e.into_inner(),
+            }
+        }
+        Ok(match kind {
+            OwnKind::Boxed => {
+                let c: BoxedLockCollection<CL> = match ctor {
+                    Ctor::New => BoxedLockCollection::new(data),
+                    Ctor::From => BoxedLockCollection::from(data),
+                    Ctor::FromIter => data.into_vec().into_iter().collect(),
+                    Ctor::TryNew => BoxedLockCollection::try_new(data).ok_or_else(|| bad("try_new rejected owned data"))?,
+                    Ctor::NewThenExtend(_) => return Err(bad("boxed collections cannot be extended")),
+                };
+                reg(c.child().members(), false);
+                if poison {
+                    Node::POwnBoxed(Box::new(Poisonable::new(c)))
+                } else {
+                    Node::OwnBoxed(c)
+                }
+            }
+            OwnKind::Retry => {
+                let mut c: RetryingLockCollection<CL> = match ctor {
+                    Ctor::New | Ctor::NewThenExtend(_) => RetryingLockCollection::new(data),
+                    Ctor::From => RetryingLockCollection::from(data),
+                    Ctor::FromIter => data.into_vec().into_iter().collect(),
+                    Ctor::TryNew => RetryingLockCollection::try_new(data).ok_or_else(|| bad("try_new rejected owned data"))?,
+                };
+                if !rest.is_empty() {
+                    c.extend(rest.iter().map(mk));
+                }
+                if poison {
+                    let mut b = Box::new(Poisonable::new(c));
+                    reg(un(b.child_mut()).child().members(), false);
+                    Node::POwnRetry(b)
+                } else {
+                    let b = Box::new(c);
+                    reg(b.child().members(), false);
+                    Node::OwnRetry(b)
+                }
+            }
+            OwnKind::Owned => {
+                let mut c: Unit = match ctor {
+                    Ctor::New | Ctor::TryNew | Ctor::NewThenExtend(_) => OwnedLockCollection::new(data),
+                    Ctor::From => OwnedLockCollection::from(data),
+                    Ctor::FromIter => data.into_vec().into_iter().collect(),
+                };
+                if !rest.is_empty() {
+                    c.extend(rest.iter().map(mk));
+                }
+                if poison {
+                    let mut b = Box::new(Poisonable::new(c));
+                    reg(un(b.child_mut()).child_mut().members(), true);
+                    Node::POwnOwned(b)
+                } else {
+                    let mut b = Box::new(c);
+                    reg(b.child_mut().members(), true);
+                    Node::OwnOwned(b)
+                }
+            }
+            OwnKind::Ref => {
+                let h = match ctor {
+                    Ctor::TryNew => RefHolder::try_new(data).ok_or_else(|| bad("try_new rejected owned data"))?,
+                    _ => RefHolder::new_owned(data),
+                };
+                reg(h.get().child().members(), false);
+                Node::OwnRef(h)
+            }
+        })
+    }
+
     /// address rank of every arena slot (sanity: must be the identity)
     pub fn address_ranks_ok(&self) -> bool {
         let n = self.arena.len();
@@ -167,7 +291,8 @@ impl World {
     /// tear everything down (targets in reverse order, then the arena). Payload drops are counted.
     pub fn teardown(mut self) {
         while let Some(t) = self.targets.pop() {
-            if let Some(p) = t {
+            let p = t.into_inner();
+            if !p.is_null() {
                 drop(unsafe { Box::from_raw(p) });
             }
         }
